@@ -1,6 +1,7 @@
 import SvModel.Core.Pp
 import SvModel.Gen.PpKinds
 import SvModel.Lemmas.Walker
+import SvModel.Lemmas.IgnoreInc
 /-!
 # C10 / C11 / C09 / C18 — decision logic of the walker, stated outright
 
@@ -245,5 +246,21 @@ theorem C11_skipped_events_inert (C : Cfg) (inp : Input) (s path : Bytes) (ii sc
     (hs : w.skip = true) (hn : ∀ e ∈ es, w.skipNodes.contains (evNode e) = false) :
     walk C (fuel + es.length) inp s path ii sc rd id (es ++ evs) w = walk C fuel inp s path ii sc rd id evs w :=
   walk_skipping C inp s path ii sc rd id evs es fuel w hs hn
+
+
+/-- **with `ignore_include` no file is ever consulted — whole runs, through macro expansion.** Two configurations that differ only in the file
+    system and the include path list give the same result (text, origins, define table or error) for every `preprocess_str` run with
+    `ignore_include = true`: every input, path, table, `strip_comments` value, depth counters and fuel. An `include that comes out of a macro
+    expansion is covered: the flag is handed on to the re-scan of the expansion (repair D7). -/
+theorem C10_ignore_include_never_reads_files (K : PpKinds) (g : Grammar) (fs fs' : Fs) (incs incs' : List Bytes) (fuel : Nat)
+    (s path : Bytes) (d : Defines) (sc : Bool) (rd id : Nat) :
+    preprocessStr ⟨K, g, fs, incs⟩ fuel s path d true sc rd id = preprocessStr ⟨K, g, fs', incs'⟩ fuel s path d true sc rd id :=
+  (walk_ignore_include K g fs fs' incs incs' fuel).1 s path d sc rd id
+
+/-- in particular the result is the one obtained with an empty file system: no `Include{File}` can arise from a missing file -/
+theorem C10_ignore_include_as_if_no_files (K : PpKinds) (g : Grammar) (fs : Fs) (incs : List Bytes) (fuel : Nat)
+    (s path : Bytes) (d : Defines) (sc : Bool) (rd id : Nat) :
+    preprocessStr ⟨K, g, fs, incs⟩ fuel s path d true sc rd id = preprocessStr ⟨K, g, [], []⟩ fuel s path d true sc rd id :=
+  C10_ignore_include_never_reads_files K g fs [] incs [] fuel s path d sc rd id
 
 end Sv
